@@ -70,7 +70,7 @@ def generate(master, index, tier):
         "rawbuf": rng.choice((1, 8, 64, 8192)),
         "items": items,
         "driver": rng.choice(("iterate", "read")),
-        "opts": {"quitonerror": rng.choice((0, 1, 2)), "labelmsm": rng.choice((1, 2)), "handler": rng.choice((False, False, "method", "function", "collector", "falsy"))},
+        "opts": {"quitonerror": rng.choice((0, 1, 2)), "labelmsm": rng.choice((1, 2)), "handler": rng.choice((False, False) + W.HANDLER_KINDS)},
         "sched": {"seed": rng.getrandbits(48), "seg": rng.choice(("full", "byte", "small", "random", "mixed"))},
     }
 
